@@ -591,6 +591,17 @@ fn locate_in(files: &[SrcFile], loc: &str, in_file: Option<&str>) -> Result<Foun
             syn::FnArg::Receiver(r) => r.attrs.clear(),
         }
     }
+    // N14: parameters named like Verus built-in types are renamed in the comparison too
+    for inp in sig.inputs.iter_mut() {
+        if let syn::FnArg::Typed(t) = inp {
+            if let syn::Pat::Ident(pi) = &mut *t.pat {
+                let n = pi.ident.to_string();
+                if crate::rewrite::RESERVED.contains(&n.as_str()) {
+                    pi.ident = syn::Ident::new(&format!("{}__v", n), pi.ident.span());
+                }
+            }
+        }
+    }
     let sig_text = sig.to_token_stream().to_string();
     Ok(Found {
         file: f.path.clone(),
